@@ -4,15 +4,18 @@
    always a present revision; with NGhosts = 1 the ghost 99 may occur among the other parents), and all pairs of
    tips (t, s), t, s \in revisions + Null, such that every revision is in the ancestry of t or s -- a graph with
    further revisions behaves, for the pair, like the smaller graph without them, which is enumerated as well.
-   Sampling for replay: the cases whose index in TLC's normalised enumeration is = Offset modulo Stride. *)
-EXTENDS History, TLC, SequencesExt
+   Larger graphs: see Graphs.  Sampling for replay: the cases whose index in TLC's normalised enumeration is = Offset modulo Stride. *)
+EXTENDS History, TLC, SequencesExt, Json, IOUtils
 CONSTANTS MinRev, MaxRev, MaxPar, NGhosts, Stride, Offset
 GhostIds == IF NGhosts = 0 THEN {} ELSE {99}
 ParentLists(n) ==
     {<<>>} \cup UNION {{<<l>> \o rest : rest \in DistinctSeqs(((1..(n - 1)) \ {l}) \cup GhostIds, MaxPar - 1)} : l \in 1..(n - 1)}
 RECURSIVE GraphsOf(_)
 GraphsOf(n) == IF n = 0 THEN {<<>>} ELSE {Append(P, ps) : P \in GraphsOf(n - 1), ps \in ParentLists(n)}
-Graphs == UNION {GraphsOf(m) : m \in MinRev..MaxRev}
+\* thorough tiers also feed seeded random larger graphs (<= MaxRev revisions, at most two heads) through the same
+\* modules: a JSON list of graphs in the file named by VF_GRAPHS replaces the enumeration
+Graphs == IF "VF_GRAPHS" \in DOMAIN IOEnv THEN SeqRange(JsonDeserialize(IOEnv.VF_GRAPHS))
+          ELSE UNION {GraphsOf(m) : m \in MinRev..MaxRev}
 \* every revision is an ancestor of a head (a revision that is nobody's parent), so (t, s) covers P iff {t, s} contains
 \* all heads: no ancestry computation is needed to enumerate the universe
 HeadsOfGraph(P) == DOMAIN P \ UNION {ParentSet(P, r) : r \in DOMAIN P}
